@@ -272,14 +272,10 @@ class IntervalTier(textgrid_tier.TextgridTier):
             newEntryList.append(Interval(newStart, newEnd, interval.label))
 
         # Determine new min and max timestamps
-        newMin = min([interval.start for interval in newEntryList])
-        newMax = max([interval.end for interval in newEntryList])
-
-        if newMin > self.minTimestamp:
-            newMin = self.minTimestamp
-
-        if newMax < self.maxTimestamp:
-            newMax = self.maxTimestamp
+        newMin = min(
+            [interval.start for interval in newEntryList] + [self.minTimestamp]
+        )
+        newMax = max([interval.end for interval in newEntryList] + [self.maxTimestamp])
 
         return IntervalTier(self.name, newEntryList, newMin, newMax)
 
